@@ -1117,6 +1117,7 @@ func (fc *fnCtx) execFrom(st *State, fr *frame, b *ssa.BasicBlock, i int) {
 				for _, h := range fr.spec.Hints[-fr.callOrd[ins]] {
 					sc := fc.specCtxFor(st, fr)
 					sc.useNames = true
+					fc.bindCallOperands(st, sc, ins)
 					name := fc.oblName(fr, fmt.Sprintf("hint@before.call%d.%d", fr.callOrd[ins], h.Ord))
 					if g := fc.evalBoolClause(sc, h, name); g != "" {
 						fc.emit(st, name, "hint", h.Text, clauseLoc(h), g, h.Tags)
@@ -1139,6 +1140,7 @@ func (fc *fnCtx) execFrom(st *State, fr *frame, b *ssa.BasicBlock, i int) {
 						sc := fc.specCtxFor(st, fr)
 						sc.useNames = true
 						sc.preHeap, sc.preNow = preHeap, preNow
+						fc.bindCallOperands(st, sc, ins)
 						name := fc.oblName(fr, fmt.Sprintf("hint@call%d.%d", fr.callOrd[ins], h.Ord))
 						if g := fc.evalBoolClause(sc, h, name); g != "" {
 							if h.Kind == "assumeat" {
@@ -1158,6 +1160,30 @@ func (fc *fnCtx) execFrom(st *State, fr *frame, b *ssa.BasicBlock, i int) {
 			if !cont {
 				return
 			}
+		}
+	}
+}
+
+// bindCallOperands makes the operands of the call a hint is attached to available as $recv, $arg1, $arg2, ...
+func (fc *fnCtx) bindCallOperands(st *State, sc *specCtx, call *ssa.Call) {
+	c := call.Common()
+	var ops []ssa.Value
+	if c.IsInvoke() {
+		if v, ok := fc.tryVal(st, c.Value); ok {
+			sc.vars["$recv"] = v
+		}
+		ops = c.Args
+	} else if callee := c.StaticCallee(); callee != nil && callee.Signature.Recv() != nil && len(c.Args) > 0 {
+		if v, ok := fc.tryVal(st, c.Args[0]); ok {
+			sc.vars["$recv"] = v
+		}
+		ops = c.Args[1:]
+	} else {
+		ops = c.Args
+	}
+	for i, a := range ops {
+		if v, ok := fc.tryVal(st, a); ok {
+			sc.vars[fmt.Sprintf("$arg%d", i+1)] = v
 		}
 	}
 }
@@ -1630,8 +1656,9 @@ func (fc *fnCtx) unop(st *State, fr *frame, ins *ssa.UnOp) {
 		if x.A == nil {
 			fc.runtimeCheck(st, fr, ins, "nil", eq(x.T, "nil"))
 		}
+		fieldMutex := ""
 		if x.A != nil && x.A.Kind == "field" {
-			fc.checkGuarded(st, fr, ins, x.A, false)
+			fieldMutex = fc.checkGuarded(st, fr, ins, x.A, false)
 		}
 		gmutex := ""
 		if x.A != nil && x.A.Kind == "global" {
@@ -1644,7 +1671,18 @@ func (fc *fnCtx) unop(st *State, fr *frame, ins *ssa.UnOp) {
 			}
 			st.ghost["guard:"+v.T] = gmutex
 		}
+		if fieldMutex != "" && v.S == SU {
+			if _, isChan := ins.Type().Underlying().(*types.Chan); !isChan {
+				st.ghost["objguard:"+v.T] = fieldMutex
+			}
+		}
 		d := fc.define(st, ins, v.T)
+		if g, ok := st.ghost["guard:"+v.T]; ok {
+			st.ghost["guard:"+d.T] = g
+		}
+		if g, ok := st.ghost["objguard:"+v.T]; ok {
+			st.ghost["objguard:"+d.T] = g
+		}
 		fc.assumeTyped(st, d)
 	case token.NOT:
 		fc.define(st, ins, not(x.T))
